@@ -65,7 +65,7 @@ func zxPassword(name string, allowEmpty bool) string {
 	return vrtString(name, n)
 }
 
-//zx:harness prop=C19 id=C19.R tier=quick shard=handler:3
+//zx:harness prop=C19 id=C19.R tier=quick shard=handler:3 thorough.shard=handler:3,npresented:3
 func zxC19RPC() {
 	configured := zxPassword("configured", true)
 	nPresented := vrtShape("npresented", 3) // 0: no metadata at all
